@@ -69,6 +69,9 @@ var schemeCatalogue = []Scheme{
 }
 
 var primTypes = []string{"string", "bool", "int", "int8", "int16", "int32", "int64", "uint", "uint8", "uint16", "uint32", "uint64", "float32", "float64"}
+
+// strings carry most of the validator vocabulary, so parameters are strings more often than any one numeric type
+var extraParamTypes = append(append([]string{}, primTypes...), "string", "string", "string", "string")
 var verbs = []string{"GET", "POST", "PUT", "DELETE", "PATCH"}
 var schemeNames = []string{"apiKeyAuth", "bearerAuth", "oauthAuth"}
 var scopePool = []string{"read", "write", "admin", "items:read"}
@@ -311,6 +314,20 @@ func GenProject(t *rapid.T, pf Profile) *Project {
 					if pf.TrailingSlash {
 						route += "/"
 					}
+				case 4:
+					// the controller's own path with a trailing slash: @Route(/) under a prefix
+					if pf.TrailingSlash && c.HasRoute && len(segsOf(c.Prefix())) > 0 {
+						bare := NormalisePath(c.Prefix(), "/")
+						free := true
+						for _, k := range taken {
+							if (k.verb == m.Verb && Overlap(k.path, bare)) || sameTemplateOtherNames(k.path, bare) {
+								free = false
+							}
+						}
+						if free {
+							route, full, segs = "/", bare, nil
+						}
+					}
 				case 3:
 					if c.HasRoute && strings.HasSuffix(c.Route, "/") {
 						route = strings.Join(segs, "/") // prefix ends with '/', route starts without
@@ -330,6 +347,10 @@ func GenProject(t *rapid.T, pf Profile) *Project {
 						prm.Name, prm.Wire = "p"+strings.ReplaceAll(pn, "_", "")+"Arg", pn
 					} else {
 						prm.Name = pn
+					}
+					if n := len(m.Params); pf.GroupedParams && n > 0 && m.Params[n-1].In == "path" && rapid.IntRange(0, 3).Draw(t, "groupPath") == 0 {
+						// "id, name string": consecutive path parameters declared together
+						prm.Type, prm.Grouped = m.Params[n-1].Type, true
 					}
 					m.Params = append(m.Params, prm)
 				}
@@ -469,7 +490,7 @@ func genValidator(t *rapid.T, pf Profile, typ TypeRef) string {
 		var pool []string
 		switch {
 		case base.Kind == "prim" && base.Name == "string":
-			pool = []string{"email", "uuid", "ip", "ipv4", "ipv6", "hostname", "date", "datetime", "min=1", "max=10", "len=5", "pattern=^[a-z]+$", "enum=a|b|c", "oneof=a b c", "required"}
+			pool = []string{"email", "uuid", "ip", "ipv4", "ipv6", "hostname", "date", "datetime", "min=1", "max=10", "len=5", "pattern=^[a-z]+$", "enum=a|b|c", "oneof=a b c", "required", "oneof=required optional", "enum=required|not_required"}
 		case base.Kind == "prim" && base.Name == "bool":
 			pool = []string{"required"}
 		case base.Kind == "prim":
@@ -506,7 +527,7 @@ func genValidator(t *rapid.T, pf Profile, typ TypeRef) string {
 	}
 	switch {
 	case base.Kind == "prim" && base.Name == "string":
-		return rapid.SampledFrom([]string{"email", "uuid", "min=1", "max=10", "len=5", "min=2,max=8", "oneof=a b c", "required", "ipv4", "hostname"}).Draw(t, "sval")
+		return rapid.SampledFrom([]string{"email", "uuid", "min=1", "max=10", "len=5", "min=2,max=8", "oneof=a b c", "required", "ipv4", "hostname", "oneof=required optional", "oneof=required optional"}).Draw(t, "sval")
 	case base.Kind == "prim" && base.Name == "bool":
 		return ""
 	case base.Kind == "prim" && strings.HasPrefix(base.Name, "float"):
@@ -537,6 +558,7 @@ func genExtraParams(t *rapid.T, pf Profile, m *Method, types *typeCtx) {
 		used[p.Name], used[p.WireName()] = true, true
 	}
 	hasBody := false
+	groupLeft := 0
 	for i := 0; i < n; i++ {
 		prm := Param{Name: fmt.Sprintf("%s%d", rapid.SampledFrom([]string{"q", "limit", "flag", "hdr", "val"}).Draw(t, "xname"), i)}
 		if pf.CollidingNames && rapid.IntRange(0, 2).Draw(t, "collide") == 0 {
@@ -565,7 +587,7 @@ func genExtraParams(t *rapid.T, pf Profile, m *Method, types *typeCtx) {
 			hasBody = true
 			prm.Type = types.bodyType(t)
 		default:
-			prm.Type = Prim(rapid.SampledFrom(primTypes).Draw(t, "xtype"))
+			prm.Type = Prim(rapid.SampledFrom(extraParamTypes).Draw(t, "xtype"))
 			if types != nil && rapid.IntRange(0, 3).Draw(t, "namedParam") == 0 {
 				if nt, ok := types.scalarNamed(t); ok {
 					prm.Type = nt
@@ -585,10 +607,18 @@ func genExtraParams(t *rapid.T, pf Profile, m *Method, types *typeCtx) {
 		prm.Desc = genDesc(t, "pdesc")
 		if pf.GroupedParams && i > 0 && len(m.Params) > 0 {
 			prev := m.Params[len(m.Params)-1]
-			if prev.In != "context" && prev.In != "path" && prev.In != "body" && prm.In != "body" && rapid.IntRange(0, 3).Draw(t, "group") == 0 {
+			eligible := prev.In != "context" && prev.In != "path" && prev.In != "body" && prm.In != "body"
+			if eligible && groupLeft == 0 && rapid.IntRange(0, 3).Draw(t, "group") == 0 {
+				// runs of two to four names in one declaration, usually followed by further parameters
+				groupLeft = rapid.IntRange(1, 3).Draw(t, "groupLen")
+			}
+			if eligible && groupLeft > 0 {
 				// "a, b T": same type, and the same location so that the type stays legal there
+				groupLeft--
 				prm.Type, prm.In, prm.Grouped = prev.Type, prev.In, true
 				prm.Validator = ""
+			} else {
+				groupLeft = 0
 			}
 		}
 		m.Params = append(m.Params, prm)
@@ -652,7 +682,7 @@ var FullProfile = Profile{
 	MaxControllers: 3, MaxMethods: 5, CtrlPackages: []string{"api", "api2", "internal/api3"},
 	Decoys: true, Hidden: true, Security: true, ExtraParams: 4, Types: true, TypePackages: []string{"models", "shared"},
 	Validators: true, Responses: true, SlashNoise: true, SharedPrefix: true, PtrParams: true, FormParams: true,
-	ContextParams: true, GroupedParams: true, SliceQuery: true,
+	ContextParams: true, GroupedParams: true, SliceQuery: true, TrailingSlash: true,
 }
 
 // SecurityProfile biases towards C04: every level of security, varied scheme catalogue, enforce flag.
@@ -666,5 +696,5 @@ var RouterProfile = Profile{
 	MaxControllers: 4, MaxMethods: 8, MinMethods: 3, CtrlPackages: []string{"api", "api2", "internal/api3"},
 	Decoys: true, Hidden: true, Security: true, ExtraParams: 4, Types: true, TypePackages: []string{"models", "shared"}, FlatStructs: true,
 	Validators: true, Responses: true, SlashNoise: true, SharedPrefix: true, PtrParams: true, FormParams: true,
-	ContextParams: true, GroupedParams: true, SliceQuery: true, PtrPathParams: false, NoNamedInMaps: true,
+	ContextParams: true, GroupedParams: true, SliceQuery: true, PtrPathParams: false, NoNamedInMaps: true, TrailingSlash: true,
 }
